@@ -39,8 +39,11 @@ TRcvd == /\ IsEv("rcvd")
 TDirEnd == /\ IsEv("dir_end")
            /\ (kf => PrintT(<<"KNOWN", sid>>))
            /\ S' = <<>> /\ p' = 1 /\ tainted' = FALSE /\ kf' = FALSE /\ UNCHANGED sid
+\* connections created on several threads at once: no identifier is handed out twice
+TIdBurst == IsEv("idburst") /\ Rec[l].total = Rec[l].threads * Rec[l].per /\ Rec[l].distinct = Rec[l].total
+            /\ UNCHANGED <<S, p, tainted, kf, sid>>
 TEnd == IsEv("end") /\ UNCHANGED <<S, p, tainted, kf, sid>>
-TNext == TReset \/ TConns \/ TSent \/ TRcvd \/ TDirEnd \/ TEnd
+TNext == TReset \/ TConns \/ TSent \/ TRcvd \/ TDirEnd \/ TEnd \/ TIdBurst
 TSpec == TInit /\ [][TNext]_tvars
 Accepted ==
     LET d == TLCGet("stats").diameter IN
